@@ -137,6 +137,21 @@ def norm(out):
     return " ".join("FAULT" if t.startswith("FAULT") else t for t in out.split())
 
 
+def complete(line, out):
+    """the result line has one well-formed token per op or ends with a fault token (an unforked
+    process that died leaves a truncated line and nothing for the following programs)"""
+    toks = out.split()
+    if toks and toks[-1].startswith("FAULT"):
+        return True
+    if len(toks) != len(line.split()) - 1:
+        return False
+    for t in toks:
+        st = t.partition("@")[2].split(",")
+        if len(st) != 3 or not all(x.isdigit() for x in st):
+            return False
+    return True
+
+
 def oracle(line, out):
     """evaluate the FIFO property on the implementation's output; returns None or (op index, text)"""
     cap, ops = parse_line(line)
@@ -148,10 +163,13 @@ def oracle(line, out):
         if i >= len(res):
             return (i, "no result for op %d (%s)" % (i, op))
         r = res[i]
-        if r.startswith("FAULT"):
+        if r.startswith("FAULT") or r.startswith("PROCFAIL"):
             return (i, "op %d (%s): %s - the queue left its buffer" % (i, op, r))
         body, _, stt = r.partition("@")
-        nh, nt, nc = [int(x) for x in stt.split(",")]
+        try:
+            nh, nt, nc = [int(x) for x in stt.split(",")]
+        except ValueError:
+            return (i, "op %d (%s): no well-formed result (%s): the process died or a fault interrupted the op" % (i, op, " ".join(res[i:i + 3])[:80]))
         if op.startswith("a:"):
             n = int(op[2:])
             if body == "a=NULL":
@@ -230,7 +248,7 @@ def check_lines(ctx, lines, tag, st):
     clean = [("FAULT" not in mf) and ("FAULT" not in mo) for mf, mo in zip(m_fixed, m_orig)]
     for variant in ("asan", "plain"):
         got = run_c(variant, [("nofork " + l) if c else l for l, c in zip(lines, clean)])
-        redo = [i for i, g in enumerate(got) if g.startswith("PROCFAIL")]
+        redo = [i for i, g in enumerate(got) if not complete(lines[i], g)]
         if redo:
             st["rerun_forked"] += len(redo)
             for i, g in zip(redo, run_c(variant, [lines[i] for i in redo])):
@@ -295,8 +313,8 @@ def run(ctx):
     st = {"ops": 0, "eq_fixed": 0, "known_class": {}, "reported": {}, "rerun_forked": 0, "cands": {}}
 
     # (a) complete reachable state space
-    caps_full = list(range(16, 29)) if quick else list(range(16, 33))
-    caps_sparse = [] if quick else list(range(33, 49))
+    caps_full = list(range(16, 29)) if quick else list(range(16, 35))
+    caps_sparse = [] if quick else list(range(35, 49))
     progs, stats = gen_state_space(ctx, caps_full, caps_sparse)
     nlines = 0
     for cap in caps_full + caps_sparse:
@@ -342,7 +360,7 @@ def run(ctx):
                        "state is executed on the C at least once. (b) random walks on capacities %s, sizes aimed at capacity-12..capacity+1 and at the "
                        "remaining contiguous space -2..+12. distinct = (build, program); all non-trivial."
                        % ("%d..%d" % (caps_full[0], caps_full[-1]),
-                          "" if quick else " and 33..48 with the size alphabet {0,5,9,cap/2-6,cap-13..cap+1} (the full space has > 10^5 states from 36 on)",
+                          "" if quick else " and 35..48 with the size alphabet {0,5,9,cap/2-6,cap-13..cap+1} (the full space has > 10^5 states from 36 on, 4x per 4 bytes)",
                           walk_caps))
     if ctx.tier == "thorough":
         vlib.coqchk(ctx, ["Properties_C08"])
